@@ -1237,6 +1237,16 @@ impl Engine for CApi {
         }
     }
 
+    fn isolate_every(&self, unit: &UnitSpec) -> Option<u64> {
+        // the reference model is the Rust API in the same process: process-wide state in the library
+        // would mislead both sides alike, so a sample of histories is compared with its own run
+        // alone in a fresh process (every zone case: name resolution is where such state would sit)
+        if self.mode != Mode::Model {
+            return None;
+        }
+        Some(if unit.name.starts_with("sweep:zone") { 1 } else { 16 })
+    }
+
     fn components(&self) -> (Vec<&'static str>, Vec<&'static str>) {
         (
             vec!["all 91 extern \"C\" functions of src/c_api", "thread_local LAST_ERROR on real OS threads", "DEFAULT_NS", "zinc / hayson codecs", "filter parser and evaluator", "units and timezone tables"],
